@@ -1,1 +1,8 @@
 # table of claimed properties; exec'd by gen_manifest.py
+NOTE = "Trusted base: go/packages+go/types+go/ssa (x/tools v0.29.0) and the anchor tables in plzcheck/*.go. Decides structural necessary conditions only; the runtime behaviour itself is not decided."
+CLAIMED["C20"] = ("component-boundary rule on SSA value flow (prefixbound) + path enumeration of the pattern predicates",
+  "Every prefix/substring test between two package/directory paths anywhere in the repository is component-bounded, and every true-returning path of Includes/Matches/IsIncludedIn carries a package-equality or (`...` + bounded-prefix/root) fact. A broken instance makes `//p/...` select `//pfoo`. Label round-trip is a value property and is not decided.",
+  NOTE, "DESIGN.md 4(E1), 5(C20)")
+CLAIMED["C22"] = ("component-boundary rule on SSA value flow inside the BUILD-file walker + prune-path enumeration",
+  "Inside FindAllBuildFiles every prefix test between the walked path and a configured directory is component-bounded, and the walk callback has a SkipDir-returning path under each of the plz-out, hidden-directory and blacklist tests. The set of directories visited at run time is not decided.",
+  NOTE, "DESIGN.md 4(E1), 5(C22)")
